@@ -6,6 +6,9 @@
 (* Events: setup, bp(pot, out), start(solver, iters, nols), exit(path),     *)
 (*   try(t, i, e, suff, branch, theta, mu), iter(t), return(path, pot, marg)*)
 EXTENDS Solvers, TraceLib
+
+CONSTANT Strict    \* TRUE: the run must be a behaviour of Solvers.tla (counters, exact step-size exponents, branch = comparison);
+                   \* FALSE: only C08's clause - the stored (parameters, marginals) pair is a legal pair
 VARIABLES tid, l, bpOf        \* bpOf: observed marginal-object -> parameter-object it was computed from
 tvars == <<vars, tid, l, bpOf>>
 T == Traces[tid]
@@ -19,19 +22,19 @@ TraceInit == /\ tid \in 1..NTraces /\ l = 1 /\ bpOf = <<>>
 
 \* every belief-propagation call is recorded: which parameter object produced which marginal object
 TrBP == /\ IsEv("bp") /\ bpOf' = (Ev.out :> Ev.pot) @@ bpOf /\ UNCHANGED vars
-TrSetup == IsEv("setup") /\ Setup /\ UNCHANGED bpOf
-TrExit == IsEv("exit") /\ EarlyExit /\ UNCHANGED bpOf
-TrBegin == /\ pc = "loss0" /\ l <= Len(T.events) /\ Ev.e \in {"try", "iter"}
+TrSetup == Strict /\ IsEv("setup") /\ Setup /\ UNCHANGED bpOf
+TrExit == Strict /\ IsEv("exit") /\ EarlyExit /\ UNCHANGED bpOf
+TrBegin == /\ Strict /\ pc = "loss0" /\ l <= Len(T.events) /\ Ev.e \in {"try", "iter"}
            /\ Begin /\ UNCHANGED <<tid, l, bpOf>>                        \* internal step
-TrTry == /\ IsEv("try")
+TrTry == /\ Strict /\ IsEv("try")
          /\ Ev.t = t /\ Ev.i = i                       \* iteration and trial counters are the spec's
          /\ Ev.ex = e                                  \* step size = alpha0 * 2^-e exactly
          /\ Ev.branch = (nols \/ Ev.suff)              \* the branch taken is the one the comparison requires
          /\ Ev.mu \in DOMAIN bpOf /\ bpOf[Ev.mu] = Ev.theta    \* the trial's marginals come from the trial's parameters
          /\ Try(Ev.suff) /\ UNCHANGED bpOf
-TrIter == IsEv("iter") /\ Ev.t = t /\ IterAvg /\ UNCHANGED bpOf
+TrIter == Strict /\ IsEv("iter") /\ Ev.t = t /\ IterAvg /\ UNCHANGED bpOf
 TrReturn ==
-  /\ IsEv("return") /\ pc = "store"
+  /\ Strict /\ IsEv("return") /\ pc = "store"
   /\ IF solver = "MD"
      THEN /\ StoreMD
           /\ Ev.marg \in DOMAIN bpOf /\ bpOf[Ev.marg] = Ev.pot          \* stored marginals = BP(stored parameters)
@@ -39,9 +42,17 @@ TrReturn ==
      ELSE /\ StoreAvg /\ Ev.path = "avg"
           /\ Ev.marg # T.lastbpout                                       \* an averaged iterate, not the last BP output
   /\ UNCHANGED bpOf
-TrReturnEarly == /\ IsEv("return") /\ pc = "done" /\ Ev.marg = 0 /\ UNCHANGED vars /\ UNCHANGED bpOf
+TrReturnEarly == /\ Strict /\ IsEv("return") /\ pc = "done" /\ Ev.marg = 0 /\ UNCHANGED vars /\ UNCHANGED bpOf
 
-TraceNext == TrBP \/ TrSetup \/ TrExit \/ TrBegin \/ TrTry \/ TrIter \/ TrReturn \/ TrReturnEarly
+\* lenient mode: no control-flow model, only the legality of what is stored
+LSkip == ~Strict /\ l <= Len(T.events) /\ Ev.e \in {"setup", "exit", "iter"} /\ l' = l + 1 /\ UNCHANGED <<vars, tid, bpOf>>
+LTry == /\ ~Strict /\ IsEv("try") /\ Ev.mu \in DOMAIN bpOf /\ bpOf[Ev.mu] = Ev.theta /\ UNCHANGED <<vars, bpOf>>
+LReturn == /\ ~Strict /\ IsEv("return")
+           /\ \/ Ev.marg = 0                                                   \* only parameters stored
+              \/ (Ev.marg \in DOMAIN bpOf /\ bpOf[Ev.marg] = Ev.pot)            \* marginals = BP(parameters)
+              \/ (Ev.path = "avg" /\ Ev.marg # T.lastbpout)                     \* parameters = MLE(averaged marginals)
+           /\ UNCHANGED <<vars, bpOf>>
+TraceNext == LSkip \/ LTry \/ LReturn \/ TrBP \/ TrSetup \/ TrExit \/ TrBegin \/ TrTry \/ TrIter \/ TrReturn \/ TrReturnEarly
 TraceSpec == TraceInit /\ [][TraceNext]_tvars
 Marker == Mark(tid, l)
 ASSUME InitMarks
